@@ -160,7 +160,7 @@ sexp sexp_arithmetic_shift (sexp ctx, sexp self, sexp_sint_t n, sexp i, sexp cou
   if (c == 0) return i;
   if (sexp_fixnump(i)) {
     if (c < 0) {
-      res = sexp_make_fixnum(c > -sizeof(sexp_sint_t)*CHAR_BIT ? sexp_unbox_fixnum(i) >> -c : 0);
+      res = sexp_make_fixnum(c > -(sexp_sint_t)(sizeof(sexp_sint_t)*CHAR_BIT) ? sexp_unbox_fixnum(i) >> -c : (sexp_unbox_fixnum(i) < 0 ? -1 : 0));
     } else {
 #if SEXP_USE_BIGNUMS
       if ((log2i(sexp_unbox_fixnum(i)) + c + 1)
@@ -197,8 +197,17 @@ sexp sexp_arithmetic_shift (sexp ctx, sexp self, sexp_sint_t n, sexp i, sexp cou
               tmp = sexp_bignum_data(i)[j+offset]
                 << (sizeof(sexp_uint_t)*CHAR_BIT-bit_shift);
           }
-          if (sexp_bignum_sign(res) < 0)
-            res = sexp_bignum_fxadd(ctx, res, 1);
+          /* floor semantics: round a negative result away from zero */
+          /* iff any one bits were shifted out */
+          if (sexp_bignum_sign(res) < 0) {
+            tmp = (bit_shift != 0) && (offset < len)
+              && (sexp_bignum_data(i)[offset]
+                  << (sizeof(sexp_uint_t)*CHAR_BIT-bit_shift)) != 0;
+            for (j=0; j<offset && !tmp; j++)
+              tmp = sexp_bignum_data(i)[j] != 0;
+            if (tmp)
+              res = sexp_bignum_fxadd(ctx, res, 1);
+          }
         }
       }
     } else {
